@@ -254,6 +254,14 @@ def native_exe(q, asan=False):
     objs = []
     must([CLANGXX, '-O1', '-w', '-c', '-x', 'ir', src, '-o', name + '.mod.o'] + san, 'native build (module)', cwd=q.wd); objs.append(name + '.mod.o')
     must([CLANG, '-O1', '-w', '-c', '-DVF_ENTRY=' + q.ob['entry'], os.path.join(ENGINE, 'replay_rt.c'), '-o', name + '.rt.o'], 'native build (runtime)', cwd=q.wd); objs.append(name + '.rt.o')
+    # allowed external data symbols (base-class vtables that are only ever stored) get a zeroed definition
+    fl = open(os.path.join(q.wd, 'functions.txt')).read().split('\n')
+    extl = [x[len('#external '):].split() for x in fl if x.startswith('#external ')]
+    extn = [e for e in (extl[0] if extl else []) if any(re.search(rx, e) for rx in q.ob.get('allow_external', []))]
+    if extn:
+        with open(os.path.join(q.wd, 'native_ext.c'), 'w') as f:
+            for e in extn: f.write('char %s[512];\n' % e)
+        must([CLANG, '-O0', '-w', '-c', 'native_ext.c', '-o', name + '.ext.o'], 'native build (externals)', cwd=q.wd); objs.append(name + '.ext.o')
     ntus = list(q.ob.get('native_tus', []))
     if ntus: ntus.append(os.path.join(ENGINE, 'native_support.cpp'))
     for i, t in enumerate(ntus):
